@@ -1,5 +1,6 @@
 """C03 — pixel timestamps and line/frame time ranges index the raw sample stream:
 correspondence + oracle (see DESIGN.md 6/C03)."""
+import copy as _copy
 import itertools
 import json
 import os
@@ -9,7 +10,7 @@ from fractions import Fraction
 
 import numpy as np
 
-from common import VERIF, dec_float, enc_bool, enc_float, enc_list, errname
+from common import VERIF, Rng, dec_float, enc_bool, enc_float, enc_list, errname
 
 PROP = "C03"
 THEOREMS = [
@@ -62,6 +63,9 @@ THEOREMS = [
     "Verif.C03.scan_ts_placement",
     "Verif.C03.incl_range_exact_inner",
     "Verif.C03.frame_incl_range_exact_inner",
+    "Verif.C03.lineRangesRows_full",
+    "Verif.C03.lineRangesRows_full_incl",
+    "Verif.C03.dk_untouched_timestamps",
 ]
 RULE = (
     "corpus (F11 input, split-mode mean witness) + malformed stream (empty wave, nothing used, no boundary, interior "
@@ -85,7 +89,19 @@ RULE = (
     "(thorough 20000), 10^e+-1, 2^e+-1 up to 1e15, random quick 600 / thorough 20000 up to 1e8 and 1e15); meanrows small "
     "scope widths 3 and 4 next to every row over four int64 boundary values; the model reports after every mean "
     "whether all its intermediates fit int64 (must be T for non-negative int64 input) and the number of splits. "
-    "Non-trivial: a delta case has dt>=2; a kymograph/scan case has at least two ranges, or a truncated last line/frame, or delta != dt; a mean "
+    "Strengthening round H: op dkymo = ONE kymograph followed through a sequence of operations on the objects the API "
+    "returns (time slices kymo[a:b] whose bounds are the API's own range boundaries - first sample of a line = end of "
+    "the previous range with dead time, past-the-end sample of the exposure range, each also 1 ns / 1 sample off, open "
+    "ends, slices of slices -, crop_by_distance to pixel rows, flip, copy.copy, calibrate_to_kbp, in every order; a "
+    "refused slice of a processed kymograph) and/or whose photon streams start pcut samples after the info wave (the "
+    "start is repaired on first access; judged once settled; in two thirds of these cases pixel/line time (and duration) are asked once BEFORE that access - whatever they answer then, F5 - and must not be remembered afterwards); observed: timestamps, both kinds of line ranges, line and "
+    "pixel time, channel sums vs image line totals, start/stop/image shape. Small scope: P<=3 (thorough 4), <=3 lines, "
+    "k<=3, dead<=2, lead<=1: every pair of slice bounds (quick: every 13th; thorough: every 2nd/3rd for two or more lines), every one- and two-step processing "
+    "sequence and own-range slice followed by a processing step (quick: a quarter of the geometries), every pcut in the "
+    "first line period; random quick 700 / thorough 12000 with P<=6, <=7 lines, k<=8, dead time also shorter than one "
+    "pixel, up to 4 steps. The reduced channel now also covers only part of the acquisition (begin/end at every run edge "
+    "and one sample off in small scope; 20% of the random cases) and is stamped where='left' in half of the cases. "
+    "Non-trivial: a dkymo case has a step or pcut>0 and reports values; a delta case has dt>=2; a kymograph/scan case has at least two ranges, or a truncated last line/frame, or delta != dt; a mean "
     "case has two distinct values; a kmean case has k>=2."
 )
 TRUSTED = [
@@ -95,7 +111,8 @@ TRUSTED = [
 ]
 ASSUMPTIONS = [
     "the direct tie to timestamp_mean goes through a private module path (lumicks.pylake.detail.confocal, the anchored place; else any loaded pylake module that still offers the name); when it is out of reach the direct ops answer '?' (ignored by agree/oracle/nontrivial, listed under coverage.private_ties) and the clause stays tied through Kymo.timestamps (op kmean and every kymo/scan case)",
-    "info wave and photon channels are Continuous with dt >= 1 and the same start/length (no start repair: F5 is C19's subject)",
+    "info wave and photon channels are Continuous with dt >= 1 and the same length/stop; they start together, or (op dkymo, pcut>0) the photon streams start inside the first line period and the kymograph is observed after its first photon access has repaired the start (what it answers before that is F5, C19's subject); the repair is judged for kymographs with >= 3 lines and >= 1 dead sample between lines (without a gap seek_timestamp_next_line cannot see the line boundary: corpus O3, compared with the model only)",
+    "derived kymographs (op dkymo) are built from complete lines; a crop after a flip that is not symmetric shows pixels whose timestamps/ranges the API does not report (known finding F25: oracle failures of exactly that class are reported as KNOWN-FINDING); on a flipped kymograph the per-pixel timestamps are compared per line as a multiset (observation O1: flip does not mirror them)",
     "every pixel has the same number of used samples (the code documents this assumption: pixel_size = argmax(subset)+1); waves violating it are compared with the model only",
     "scan axes have at least 2 pixels (Scan._to_spatial squeezes every length-1 axis; 1-pixel axes are outside the model)",
     "timestamps are non-negative and below 2^63; (last - first)*k < 2^63 for every acquisition (no split in the per-pixel mean: needs an acquisition longer than 2^63/k ns)",
@@ -117,7 +134,7 @@ def wave_of(case):
     g = case["geom"]
     pixel = [1] * (g["k"] - 1) + [2]
     line = pixel * g["P"] + [0] * g["dead"]
-    if case["op"] in ("kymo", "kmean"):
+    if case["op"] in ("kymo", "kmean", "dkymo"):
         iw = [0] * g["lead"] + line * g["lines"] + [0] * g.get("tail", 0)
     else:
         frame = line * g["L"] + [0] * g["fdead"]
@@ -147,6 +164,9 @@ def counts_of(case, iw):
 
 def channel_of(case, counts):
     """the timeline channel that is reduced over the ranges: the counts, extended on both sides"""
+    ct = case.get("ctrim")
+    if ct:  # a channel that covers only part of the acquisition: ct[0] samples missing at the start, ct[1] at the end
+        return case["start"] + ct[0] * case["dt"], counts[ct[0] : len(counts) - ct[1]]
     pre, post = case.get("pre", 2), case.get("post", 3)
     data = [9 + (i % 3) for i in range(pre)] + counts + [11 + (i % 2) for i in range(post)]
     return case["start"] - pre * case["dt"], data
@@ -188,7 +208,7 @@ def build(case, iw, counts):
     def mk(d):
         return Slice(Continuous(np.asarray(d), case["start"], case["dt"]))
 
-    if case["op"] in ("kymo", "kmean"):
+    if case["op"] in ("kymo", "kmean", "dkymo"):
         axes = [(case.get("axis", 0), case["P"])]
         nf = 0
     else:
@@ -196,6 +216,10 @@ def build(case, iw, counts):
         axes = [(1, case["P"]), (0, case["L"])] if case["flip"] else [(0, case["P"]), (1, case["L"])]
         nf = case.get("nf_meta", 0)
     infowave = mk(np.asarray(iw, dtype=np.uint8))
+    pcut = case.get("pcut", 0)
+    if pcut:  # the photon streams start pcut samples after the info wave (a recording that began inside the first line)
+        late = Slice(Continuous(np.asarray(counts[pcut:]), case["start"] + pcut * case["dt"], case["dt"]))
+        return create_confocal_object("c03", infowave, _meta(axes, nf), late, late, late)
     if case.get("red_empty"):  # an absent channel is simply not passed (the documented default)
         return create_confocal_object("c03", infowave, _meta(axes, nf), green_channel=mk(counts), blue_channel=mk(counts))
     return create_confocal_object("c03", infowave, _meta(axes, nf), mk(counts), mk(counts), mk(counts))
@@ -224,12 +248,12 @@ def _try(f):
         return errname(e)
 
 
-def _sum_over(chan_start, dt, chan_data, ranges_fn, totals_fn):
+def _sum_over(chan_start, dt, chan_data, ranges_fn, totals_fn, where="center"):
     from lumicks.pylake.channel import Continuous, Slice
 
     ch = Slice(Continuous(np.asarray(chan_data, dtype=float), chan_start, dt))
     rs = [(int(a), int(b)) for a, b in ranges_fn()]
-    ds = ch.downsampled_over(rs, reduce=np.sum)
+    ds = ch.downsampled_over(rs, reduce=np.sum, where=where)
     return enc_list([int(round(float(x))) for x in ds.data]) + " " + enc_list([int(round(float(x))) for x in totals_fn()])
 
 
@@ -261,6 +285,79 @@ def mean_fn():
     return _TIES["timestamp_mean"][1]
 
 
+DK_WHAT = ("ts", "rex", "rin", "lt", "pt", "sum", "st")
+
+
+def step_time(case, b):
+    """a slice bound: None, or [sample index, offset in ns] -> absolute timestamp"""
+    return None if b is None else case["start"] + b[0] * case["dt"] + b[1]
+
+
+def apply_steps(case, k):
+    """the sequence of operations of a derived-kymograph case, applied one after the other to the objects the API hands
+    out (public API only); returns the final object, or the string 'Empty' for an empty kymograph"""
+    for st in case["steps"]:
+        if st[0] == "s":
+            k = k[step_time(case, st[1]) : step_time(case, st[2])]
+            if not k:
+                return "Empty"
+        elif st[0] == "c":
+            px = k.pixelsize[0]  # crop to pixel rows [lo, hi): bounds half a pixel inside, away from the rounding ties
+            k = k.crop_by_distance((st[1] + 0.5) * px, (st[2] - 0.5) * px)
+        elif st[0] == "f":
+            k = k.flip()
+        elif st[0] == "y":
+            k = _copy.copy(k)
+        elif st[0] == "k":
+            k = k.calibrate_to_kbp(10.0)
+        else:
+            raise ValueError(st)
+    return k
+
+
+def impl_dkymo(case, iw, counts, cstart, cdata):
+    def make():
+        k = build(case, iw, counts)
+        if case.get("pcut", 0):
+            if case.get("peek"):  # timing asked BEFORE the repair (whatever it answers: F5) must not be remembered after it
+                _try(lambda: k.pixel_time_seconds)
+                _try(lambda: k.line_time_seconds)
+                _try(lambda: k.duration) if case["peek"] > 1 else None
+            k.get_image("green")  # the first access to a photon stream repairs the start (F5: judged once settled)
+            if int(k.start) < case["start"] + case["pcut"] * case["dt"]:
+                return "unsettled"
+        return apply_steps(case, k)
+
+    k = _try(make)
+    if isinstance(k, str):
+        return [k] * len(DK_WHAT)
+    return [
+        _try(lambda: show_ll(k.timestamps)),
+        _try(lambda: show_ranges(k.line_timestamp_ranges())),
+        _try(lambda: show_ranges(k.line_timestamp_ranges(include_dead_time=True))),
+        _try(lambda: enc_float(k.line_time_seconds)),
+        _try(lambda: enc_float(k.pixel_time_seconds)),
+        _try(lambda: _sum_over(cstart, case["dt"], cdata, k.line_timestamp_ranges, lambda: k.get_image("green").sum(axis=0), case.get("where", "center"))),
+        _try(lambda: f"{int(k.start)} {int(k.stop)} {k.get_image('green').shape[0]} {k.get_image('green').shape[1]}"),
+    ]
+
+
+def enc_steps(case):
+    def b(x):
+        t = step_time(case, x)
+        return "N" if t is None else str(t)
+
+    out = []
+    for st in case["steps"]:
+        if st[0] == "s":
+            out.append(f"s:{b(st[1])}:{b(st[2])}")
+        elif st[0] == "c":
+            out.append(f"c:{st[1]}:{st[2]}")
+        else:
+            out.append(st[0])
+    return ",".join(out) if out else "-"
+
+
 def impl(case):
     op = case["op"]
     if op == "mean":
@@ -290,6 +387,8 @@ def impl(case):
         if isinstance(k, str):
             return [k]
         return [_try(lambda: show_ll(k.timestamps))]
+    if op == "dkymo":
+        return impl_dkymo(case, iw, counts, cstart, cdata)
     if op == "kymo":
         # the generated wave itself, compared with the Lean generator geomKymo (the domain kymo_geometry_ranges
         # quantifies over) - a tie between the two generators, not an observation of the code
@@ -304,7 +403,7 @@ def impl(case):
             _try(lambda: enc_float(k.line_time_seconds)),
             _try(lambda: enc_float(k.duration)),
             _try(lambda: enc_float(k.pixel_time_seconds)),
-            _try(lambda: _sum_over(cstart, case["dt"], cdata, k.line_timestamp_ranges, lambda: k.get_image("green").sum(axis=0))),
+            _try(lambda: _sum_over(cstart, case["dt"], cdata, k.line_timestamp_ranges, lambda: k.get_image("green").sum(axis=0), case.get("where", "center"))),
         ] + gen
     if op == "scan":
         s = _try(lambda: build(case, iw, counts))
@@ -328,7 +427,7 @@ def impl(case):
             _try(lambda: show_ranges(s.frame_timestamp_ranges())),
             _try(lambda: show_ranges(s.frame_timestamp_ranges(include_dead_time=True))),
             _try(lambda: enc_float(s.pixel_time_seconds)),
-            _try(lambda: _sum_over(cstart, case["dt"], cdata, s.frame_timestamp_ranges, totals)),
+            _try(lambda: _sum_over(cstart, case["dt"], cdata, s.frame_timestamp_ranges, totals, case.get("where", "center"))),
         ]
     raise ValueError(op)
 
@@ -352,6 +451,8 @@ def ops(case):
     w = f"{case['start']} {case['dt']} {enc_list(iw)}"
     if op == "kmean":
         return [f"c03.kts {w} {case['P']}"]
+    if op == "dkymo":
+        return [f"c03.dk {what} {w} {case['P']} {case.get('pcut', 0)} {enc_steps(case)} {enc_list(counts)} {cstart} {enc_list(cdata)}" for what in DK_WHAT]
     if op == "kymo":
         P = case["P"]
         return [
@@ -429,6 +530,10 @@ def agree(case, i, ia, ma):
     if op == "meanrows":
         flat = [x for r in case["rows"] for x in r]
         return ia == ma.split(" ")[0] and _fits_flag_ok(ma, flat)
+    if op == "dkymo":
+        if i in (3, 4):
+            return _close_ns(ia, ma, 3)
+        return ia == ma
     if op == "kmean":
         return ia == ma.split(" ")[0] and _fits_flag_ok(ma, [case["start"], case["start"] + len(wave_of(case)) * case["dt"]])
     if op == "kymo":
@@ -539,12 +644,163 @@ def oracle_kmean(case, ans):
     return None
 
 
+def judge_sums(case, ans, rs, exp, cstart, clen, name):
+    """reducing the timeline channel over the ranges reproduces the image totals - of every range the channel covers
+    completely (a channel that misses part of a line cannot give that line's total; one that does not overlap the
+    acquisition at all is refused: nothing to judge)"""
+    cstop = cstart + clen * case["dt"]
+    if not rs or cstart >= rs[-1][1] or cstop <= rs[0][0]:
+        return None
+    if ans.endswith("Error"):
+        return f"{name}-sums: implementation raised {ans}"
+    got, tot = ans.split(" ")
+    if tot != enc_list(exp):
+        return None  # image totals are C02's subject; nothing to compare the sums with
+    want = enc_list([t for (t0, t1), t in zip(rs, exp) if t0 >= cstart and t1 <= cstop])
+    if got != want:
+        return f"{name}-sums: summing the channel over the ranges gives {got[:200]}, the image {name} totals of the covered ranges are {want[:200]}"
+    return None
+
+
+def derived_rows(case):
+    """(rows of the acquired image the derived image shows, rows its timestamps belong to if they followed the image,
+    flipped?) - crop keeps rows [lo, hi) of what is shown, flip reverses what is shown"""
+    rows = list(range(case["P"]))
+    flipped = False
+    for st in case["steps"]:
+        if st[0] == "c":
+            rows = rows[st[1] : st[2]]
+        elif st[0] == "f":
+            rows = rows[::-1]
+            flipped = not flipped
+    return rows, flipped
+
+
+def rows_diverge(case):
+    """a crop AFTER a flip that is not symmetric: Kymo.flip() mirrors the image but not the per-pixel timestamps, so
+    the crop keeps different pixels of the two (finding F23)"""
+    img = list(range(case["P"]))
+    ts = list(range(case["P"]))
+    for st in case["steps"]:
+        if st[0] == "c":
+            img, ts = img[st[1] : st[2]], ts[st[1] : st[2]]
+        elif st[0] == "f":
+            img = img[::-1]
+    return sorted(img) != sorted(ts)
+
+
+def oracle_dkymo(case, ia):
+    """A kymograph after a sequence of operations (time slices with the API's own half-open ranges, crops, flips,
+    copies, recalibration) or after the repair of a start that precedes the photon streams: its timestamps have the
+    shape of its image and are the floor means of the samples of the image's pixels; every line range it reports holds
+    exactly the used samples of the pixels of that image line, starts at the line's first shown sample, ranges are
+    ordered, disjoint and (with dead time) contiguous; summing the photon channel over them gives the image's line
+    totals; pixel and line time are those the info wave encodes; a slice [a, b) keeps the lines whose first sample
+    lies in [a, b)."""
+    iw = wave_of(case)
+    pixels = structure(case, iw)
+    if not regular(case, iw, pixels) or case.get("stream") == "malformed" or case.get("model_only"):
+        return None
+    start, dt, P = case["start"], case["dt"], case["P"]
+    T = lambda i: start + i * dt  # noqa: E731
+    k = len(pixels[0])
+    counts = counts_of(case, iw)
+    phys = [pixels[i : i + P] for i in range(0, len(pixels), P)]  # the scan lines the info wave encodes
+    if any(len(g) != P for g in phys):
+        return None  # derived objects of unfinished lines: compared with the model only
+    if any(a == "unsettled" for a in ia):
+        return None
+    lines = list(range(len(phys)))
+    errs = [a for a in ia if a.endswith("Error")]
+    if len(set(ia)) == 1 and errs:
+        return None  # the sequence itself is refused (slicing a processed kymograph, an empty crop): nothing reported
+    pcut = case.get("pcut", 0)
+    st = ia[6].split(" ")
+    if pcut and (ia[6] == "Empty" or ia[6].endswith("Error")):
+        return None  # which line the repaired kymograph starts with is not known
+    if pcut:
+        # the repaired kymograph starts with the first sample of a scan line that the photon streams cover completely
+        j0 = [j for j in lines if T(phys[j][0][0]) == int(st[0])]
+        if not j0 or phys[j0[0]][0][0] < pcut:
+            return (f"repaired-start: the kymograph whose photon streams start at sample {pcut} reports start {st[0]} = sample "
+                    f"{(int(st[0]) - start) / dt:g}; the scan lines begin at samples {[g[0][0] for g in phys][:6]}")
+        lines = [j for j in lines if j >= j0[0]]
+    for s_ in case["steps"]:
+        if s_[0] == "s":
+            a, b = step_time(case, s_[1]), step_time(case, s_[2])
+            lines = [j for j in lines if (a is None or a <= T(phys[j][0][0])) and (b is None or T(phys[j][0][0]) < b)]
+    rows, flipped = derived_rows(case)
+    if not lines:
+        return None if ia[6] == "Empty" else f"slice-lines: no scan line starts inside the sliced interval(s), the API reports {ia[6]}"
+    if ia[6] == "Empty":
+        return f"slice-lines: scan lines {lines[:5]} start inside the sliced interval(s), the API reports an empty kymograph"
+    if not rows or ia[6].endswith("Error"):
+        return None
+    shape = (int(st[2]), int(st[3]))
+    if shape != (len(rows), len(lines)):
+        return f"derived-shape: the image has shape {shape}; {len(rows)} pixel rows of {len(lines)} scan lines {lines[:5]} were selected"
+    px = lambda j, r: phys[j][r]  # noqa: E731  sample indices of pixel r of scan line j
+    mean = lambda ix: sum(T(i) for i in ix) // len(ix)  # noqa: E731
+    # per-pixel timestamps
+    if not ia[0].endswith("Error"):
+        got = [[int(x) for x in r.split(",")] for r in ia[0][1:-1].split(";")] if ia[0] != "[]" else []
+        gshape = (len(got), len(got[0]) if got else 0)
+        if gshape != shape:
+            return f"timestamps-shape: timestamps have shape {gshape}, the image {shape}"
+        for c, j in enumerate(lines):
+            exp = [mean(px(j, r)) for r in rows]
+            col = [got[r][c] for r in range(len(rows))]
+            if (sorted(col) != sorted(exp)) if flipped else (col != exp):
+                return f"pixel-timestamp: line {c} (scan line {j}) has pixel timestamps {col[:6]}, the floor means of its pixels' samples are {exp[:6]}"
+    used = [i for i in range(len(iw)) if iw[i] != 0]
+    for idx, incl in ((1, False), (2, True)):
+        ans = ia[idx]
+        if ans.endswith("Error"):
+            return f"line-ranges: implementation raised {ans}"
+        rs = parse_ranges(ans)
+        if len(rs) != len(lines):
+            return f"line-range-count: {len(rs)} ranges for {len(lines)} lines"
+        shown = {j: sorted(i for r in rows for i in px(j, r)) for j in lines}
+        every = sorted(i for j in lines for i in shown[j])
+        for c, j in enumerate(lines):
+            t0, t1 = rs[c]
+            mine = shown[j]
+            inside = [i for i in (every if incl else used) if t0 <= T(i) < t1]
+            if inside != mine:
+                return f"line-range-exact: range {c} = [{t0},{t1}) contains used samples {inside[:4]}..{inside[-2:]} but the image line consists of {mine[:4]}..{mine[-2:]}"
+            if t0 != T(mine[0]):
+                return f"line-range-start: range {c} starts at {t0}, the first sample of the image line is at {T(mine[0])}"
+            if not incl or len(lines) == 1:
+                d = t1 - T(mine[-1])
+                if not (1 <= d <= dt):
+                    return f"line-range-stop: range {c} stops {d} ns after its last sample (dt = {dt})"
+            if t0 >= t1:
+                return f"line-range-order: range {c} is empty or inverted"
+            if c + 1 < len(rs):
+                if t1 > rs[c + 1][0]:
+                    return f"line-range-disjoint: range {c} overlaps range {c + 1}"
+                if incl and t1 != rs[c + 1][0]:
+                    return f"line-range-contiguous: with dead time range {c} ends at {t1}, range {c + 1} starts at {rs[c + 1][0]}"
+    # timing encoded in the info wave
+    exp_line = (phys[lines[1]][0][0] - phys[lines[0]][0][0]) * dt if len(lines) >= 2 else P * k * dt
+    for idx, exp, what in ((3, exp_line, "line-time"), (4, k * dt, "pixel-time")):
+        if ia[idx].startswith("b"):
+            v = dec_float(ia[idx])
+            if abs(v - exp * 1e-9) > 1e-12 * exp * 1e-9:
+                return f"{what}: implementation says {v!r} s, the info wave encodes {exp} ns"
+    exp = [sum(counts[i] for r in rows for i in px(j, r)) for j in lines]
+    cstart, cdata = channel_of(case, counts)
+    return judge_sums(case, ia[5], parse_ranges(ia[1]), exp, cstart, len(cdata), "line")
+
+
 def oracle(case, ia):
     op = case["op"]
     if ia and all(a == UNSEEN for a in ia):
         return None
     if op == "kmean":
         return oracle_kmean(case, ia[0])
+    if op == "dkymo":
+        return oracle_dkymo(case, ia)
     if op == "delta":
         # a range [first sample, last sample + delta) contains the last sample and not the next one iff 1 <= delta <= dt
         try:
@@ -702,16 +958,8 @@ def oracle(case, ia):
             return f"pixel-time: implementation says {ia[3]}, the info wave encodes {k * dt} ns"
         sums_idx = 4
     # reducing the timeline channel over the ranges reproduces the image totals
-    ans = ia[sums_idx]
-    if ans.endswith("Error"):
-        return f"{name}-sums: implementation raised {ans}"
-    got, tot = ans.split(" ")
     exp = [sum(counts[i] for p in g for i in p) for g in groups]
-    if tot != enc_list(exp):
-        return None  # image totals are C02's subject; nothing to compare the sums with
-    if got != tot:
-        return f"{name}-sums: summing the channel over the ranges gives {got[:200]}, the image {name} totals are {tot[:200]}"
-    return None
+    return judge_sums(case, ia[sums_idx], parse_ranges(ia[1]), exp, cstart, len(cdata), name)
 
 
 def nontrivial(case, ia):
@@ -722,6 +970,8 @@ def nontrivial(case, ia):
         return case["geom"]["k"] >= 2 and len(structure(case, wave_of(case))) > 0
     if op == "delta":
         return case["dt"] >= 2
+    if op == "dkymo":
+        return bool(case["steps"] or case.get("pcut")) and any(a.startswith("[") for a in ia)
     if op == "mean":
         return len(set(case["a"])) >= 2
     if op == "meanrows":
@@ -738,6 +988,8 @@ def nontrivial(case, ia):
 
 def tags(case, r):
     t = {"op": case["op"]}
+    if case["op"] == "dkymo":
+        t["rows_diverge"] = rows_diverge(case)
     if case["op"] == "scan":
         t["object"] = "scan"
         t["single_truncated_frame"] = single_truncated_frame(case)
@@ -747,6 +999,17 @@ def tags(case, r):
 
 def shrink(case):
     if case["op"] == "delta":
+        return
+    if case["op"] == "dkymo":
+        for i in range(len(case["steps"])):
+            c = dict(case)
+            c["steps"] = case["steps"][:i] + case["steps"][i + 1 :]
+            yield c
+        for key, v in (("start", 1000), ("dt", 10), ("dt", 55)):
+            if case[key] > v:
+                c = dict(case)
+                c[key] = v
+                yield c
         return
     if case["op"] in ("mean",):
         a = case["a"]
@@ -840,6 +1103,32 @@ def kmean_span(lead, k, P, dead, lines):
 MEAN_VALUES = [0, 1, 2, I64MAX // 3, I64MAX // 3 + 2, I64MAX // 2, I64MAX // 2 + 1, I64MAX - 1, I64MAX]
 
 
+def run_edges(iw):
+    """sample indices where a run of used samples begins, and the indices just after its end"""
+    n = len(iw)
+    return sorted({i for i in range(n) if iw[i] and (i == 0 or not iw[i - 1])} | {i + 1 for i in range(n) if iw[i] and (i + 1 == n or not iw[i + 1])})
+
+
+def vary_channel(case, r2, p_trim=0.2):
+    """the timeline channel that is reduced over the ranges: where the reduced points are stamped (the data must not
+    depend on it), and - sometimes - a channel that covers only part of the acquisition, beginning / ending at, or one
+    sample off, the first / past-the-end sample of a line (ranges not covered completely must be left out; a channel
+    ending exactly where the first range begins does not overlap it)"""
+    case["where"] = r2.choice(["center", "left"])
+    if r2.chance(p_trim):
+        iw = wave_of(case)
+        n = len(iw)
+        edges = run_edges(iw)
+        if n >= 2 and edges:
+            a = r2.choice([0, 0, r2.choice(edges), r2.choice(edges) + 1, r2.choice(edges) - 1])
+            b = r2.choice([n, n, r2.choice(edges), r2.choice(edges) + 1, r2.choice(edges) - 1])
+            a = max(0, min(a, n - 1))
+            b = max(a + 1, min(b, n))
+            if (a, b) != (0, n):
+                case["ctrim"] = [a, n - b]
+    return case
+
+
 def malformed_cases():
     s, dt = 1000, 10
     waves = [
@@ -907,6 +1196,22 @@ def cases(tier, rng):
         for tr in truncs:
             yield scan_case("small-scope", 1000, 55 if flip else 3, lead, k, P, L, dead, fdead, frames, flip, 0, tr, nf_meta=0 if dead else frames)
 
+    # ---- exhaustive small scope: a reduced channel that begins / ends at every run edge (and one sample off)
+    for P, lines, k, dead, lead, dt in ((2, 3, 2, 1, 1, 10), (1, 3, 1, 2, 2, 55), (3, 2, 1, 0, 1, 1), (2, 2, 2, 2, 0, 55)):
+        base = kymo_case("small-scope", 1000, dt, lead, k, P, dead, lines, 1)
+        n = len(wave_of(base))
+        pts = sorted({0, n} | {e + d for e in run_edges(wave_of(base)) for d in (-1, 0, 1) if 0 <= e + d <= n})
+        for a, b in itertools.combinations(pts, 2):
+            if (a, b) != (0, n) and (not quick or (a + b) % 2 == 0):
+                yield kymo_case("small-scope", 1000, dt, lead, k, P, dead, lines, 1, ctrim=[a, n - b], where="left" if (a + b) % 4 else "center")
+    for flip in (False, True):
+        base = scan_case("small-scope", 1000, 10, 1, 1, 2, 2, 1, 2, 3, flip, 1, nf_meta=0)
+        n = len(wave_of(base))
+        pts = sorted({0, n} | {e + d for e in run_edges(wave_of(base)) for d in (-1, 0, 1) if 0 <= e + d <= n})
+        for a, b in itertools.combinations(pts, 2):
+            if (a, b) != (0, n) and (not quick or (a + b) % 3 == 0):
+                yield scan_case("small-scope", 1000, 10, 1, 1, 2, 2, 1, 2, 3, flip, 1, nf_meta=0, ctrim=[a, n - b], where="left" if (a + b) % 4 else "center")
+
     # ---- exhaustive small scope: the mean through Kymo.timestamps at the edge of int64
     for k, P, lines, dead, lead in itertools.product((1, 2, 3, 4), (1, 2), (1, 2), (0, 1), (0, 1)):
         n, span = kmean_span(lead, k, P, dead, lines)
@@ -939,6 +1244,7 @@ def cases(tier, rng):
     r = rng.fork("c03-waves")
     for i in range(N):
         sub = r.fork(i)
+        r2 = Rng(sub.s ^ 0x5EED)  # a side stream for the channel variants (the wave parameters keep their draws)
         big = sub.chance(0.1)
         dt = sub.choice([1, 2, sub.choice(BAD_DT), sub.choice(BAD_DT), 12800, 10**8, sub.randint(1, 10**8), sub.randint(1, 10**8) // 55 * 55 + 55])
         start = sub.choice([0, 1000, 1388534400000000000 + sub.randint(0, 10**15), sub.randint(2**61, 2**62), 2**62])
@@ -955,7 +1261,7 @@ def cases(tier, rng):
             if sub.chance(0.5):
                 tr = sub.choice([full - 1, full - tail - dead, full - tail - dead - 1, sub.randint(lead + k, full), full - (P * k + dead) + sub.randint(0, k)])
                 tr = max(lead + k, min(tr, full))
-            yield kymo_case("random", start, dt, lead, k, P, dead, lines, tail, tr, axis=sub.choice([0, 1]), **extra)
+            yield vary_channel(kymo_case("random", start, dt, lead, k, P, dead, lines, tail, tr, axis=sub.choice([0, 1]), **extra), r2)
         else:
             P = sub.randint(2, 12 if big else 4)
             L = sub.randint(2, 12 if big else 4)
@@ -967,7 +1273,7 @@ def cases(tier, rng):
             if sub.chance(0.5):
                 tr = sub.choice([full - 1, full - tail - fdead - dead, full - tail - fdead - dead - 1, sub.randint(lead + k, full), full - per + sub.randint(0, P * k)])
                 tr = max(lead + k, min(tr, full))
-            yield scan_case("random", start, dt, lead, k, P, L, dead, fdead, frames, sub.chance(0.5), tail, tr, nf_meta=sub.choice([0, frames]), **extra)
+            yield vary_channel(scan_case("random", start, dt, lead, k, P, L, dead, fdead, frames, sub.chance(0.5), tail, tr, nf_meta=sub.choice([0, frames]), **extra), r2)
 
     # ---- adversarial int64 arrays for timestamp_mean
     M = 4000 if quick else 100000
@@ -1008,6 +1314,129 @@ def cases(tier, rng):
 
     # ---- the mean through Kymo.timestamps at the edge of int64 (public twin of the direct tie)
     yield from kmean_random(quick, rng)
+
+    # ---- round H: one object followed through a sequence of operations (slices with the API's own ranges, crops,
+    #      flips, copies), and the repair of a start that precedes the photon streams
+    yield from derived_small_scope(quick)
+    yield from derived_random(quick, rng)
+
+
+def dk_case(stream, start, dt, lead, k, P, dead, lines, steps, pcut=0, tail=0, **kw):
+    """a kymograph followed through a sequence of operations on the objects the API returns (op dkymo)"""
+    c = kymo_case(stream, start, dt, lead, k, P, dead, lines, tail, None, **kw)
+    c["op"] = "dkymo"
+    c["steps"] = steps
+    c["pcut"] = pcut
+    return c
+
+
+def line_bounds(lead, k, P, dead, lines, dt):
+    """slice bounds [sample index, ns offset] at and around the boundaries the API itself reports: the first sample of
+    every line (= the end of the previous range with dead time), the sample after the last one of every line (= the end
+    of the exposure range), one ns / one sample on either side, the very beginning and one period past the end"""
+    per = P * k + dead
+    out = []
+    for j in range(lines + 1):
+        s0 = lead + j * per
+        out += [[s0, 0], [s0, -1], [s0, 1]]
+        if j < lines:
+            out += [[s0 + P * k, 0], [s0 + P * k, -1], [s0 + P * k - 1, 0], [s0 + 1, 0]]
+    out += [[0, 0], [lead + lines * per + 1, 0]]
+    return out
+
+
+def derived_small_scope(quick):
+    """every operation and every pair of operations on small kymographs; time slices with every pair of bounds taken
+    from the API's own range boundaries; start repair for every position of the photon-stream start in the first line"""
+    proc = lambda P: [["f"], ["y"], ["k"], ["c", 0, 1], ["c", 0, P], ["c", 1, P], ["c", 0, max(1, P - 1)], ["c", 1, max(2, P - 1)], ["c", P, P + 1]]  # noqa: E731
+    n = 0
+    for P, lines, k, dead, lead in itertools.product((1, 2, 3) if quick else (1, 2, 3, 4), (1, 2, 3), (1, 2, 3), (0, 1, 2), (0, 1)):
+        n += 1
+        dt = (1, 10, 55)[n % 3]
+        geo = (1000, dt, lead, k, P, dead, lines)
+        bounds = line_bounds(lead, k, P, dead, lines, dt)
+        # --- one time slice: every pair of boundary bounds (quick: a stride through the pairs), open ends
+        pairs = [(a, b) for a in bounds + [None] for b in bounds + [None] if a is None or b is None or (a[0], a[1]) < (b[0], b[1])]
+        if quick:
+            pairs = pairs[n % 13 :: 13]
+        elif lines >= 2:
+            pairs = pairs[n % 3 :: 3] if lines == 3 and P >= 3 else pairs[n % 2 :: 2]
+        for a, b in pairs:
+            yield dk_case("small-scope", *geo, [["s", a, b]])
+        # --- the photon streams start inside (or before) the first line: the start is repaired
+        if lines >= 3 and dead >= 1:
+            for pcut in range(1, lead + P * k + dead + 1):
+                yield dk_case("small-scope", *geo, [], pcut, peek=(pcut + n) % 3)
+            yield dk_case("small-scope", *geo, [["c", 0, max(1, P - 1)], ["y"]], lead + 1)
+            yield dk_case("small-scope", *geo, [["s", [lead + P * k + dead, 0], [lead + 2 * (P * k + dead), 0]]], lead + k)
+        if quick and (n % 4):
+            continue
+        # --- the API's own ranges used for slicing, then processed: line j alone, lines j.., then flip / crop / copy
+        per = P * k + dead
+        for j in range(lines):
+            own = [["s", [lead + j * per, 0], [lead + (j + 1) * per, 0]], ["s", [lead + j * per, 0], [lead + j * per + P * k, 0]], ["s", [lead + j * per, 0], None]]
+            for sl in own:
+                for op2 in proc(P)[:6]:
+                    yield dk_case("small-scope", *geo, [sl, op2])
+            if j + 1 < lines:  # a slice of a slice
+                yield dk_case("small-scope", *geo, [own[2], ["s", None, [lead + (j + 1) * per, 0]]])
+                yield dk_case("small-scope", *geo, [own[2], ["s", [lead + (j + 1) * per, 0], None], ["y"]])
+        # --- one and two processing steps, then (sometimes) a refused slice
+        for a in proc(P):
+            yield dk_case("small-scope", *geo, [a])
+            for b in proc(P):
+                if a[0] == "k" and b[0] == "k":
+                    continue
+                yield dk_case("small-scope", *geo, [a, b])
+        yield dk_case("small-scope", *geo, [["f"], ["s", None, None]])
+
+
+def derived_random(quick, rng):
+    N = 700 if quick else 12000
+    r = rng.fork("c03-derived")
+    for i in range(N):
+        sub = r.fork(i)
+        dt = sub.choice([1, 2, sub.choice(BAD_DT), 12800, 10**8, sub.randint(1, 10**8), sub.randint(1, 10**6) * 55])
+        start = sub.choice([0, 1000, 1388534400000000000 + sub.randint(0, 10**15), sub.randint(2**61, 2**62)])
+        k = sub.choice([1, 2, 3, sub.randint(1, 8), sub.randint(4, 8)])
+        dead = sub.choice([1, 2, sub.randint(1, k), sub.randint(0, 20)])   # also fly-backs shorter than one pixel
+        lead = sub.choice([0, 1, sub.randint(0, 10)])
+        tail = sub.choice([0, 0, sub.randint(0, 5)])
+        P = sub.randint(1, 6)
+        lines = sub.randint(1, 7)
+        pcut = 0
+        if sub.chance(0.3):
+            dead = max(dead, 1)
+            lines = max(lines, 3)
+            pcut = sub.choice([1, lead + 1, lead + k, lead + P * k, lead + P * k + dead, sub.randint(1, lead + P * k + dead)])
+            pcut = max(1, min(pcut, lead + P * k + dead))
+        bounds = line_bounds(lead, k, P, dead, lines, dt) + [None, None, None]
+        steps, n, processed, kbp = [], P, False, False
+        for _ in range(sub.choice([0, 1, 1, 2, 2, 3, 4])):
+            kind = sub.choice(["s", "s", "c", "f", "y", "k"] if not processed else ["c", "f", "y", "k", "c", "f", "y", "s"])
+            if kind == "s":
+                a, b = sub.choice(bounds), sub.choice(bounds)
+                if a is not None and b is not None and (a[0] * dt + a[1]) > (b[0] * dt + b[1]) and sub.chance(0.9):
+                    a, b = b, a
+                steps.append(["s", a, b])
+            elif kind == "c":
+                lo = sub.choice([0, 0, sub.randint(0, n), 1])
+                hi = sub.choice([n, n, sub.randint(1, n + 1), lo + 1])
+                hi = max(1, hi)
+                steps.append(["c", lo, hi])
+                n = max(0, min(hi, n) - min(lo, n))
+                processed = True
+            elif kind == "k":
+                if kbp:
+                    continue
+                kbp = True
+                steps.append(["k"])
+            else:
+                steps.append([kind])
+                processed = processed or kind == "f"
+        yield vary_channel(dk_case("random-derived", start, dt, lead, k, P, dead, lines, steps, pcut, tail, axis=sub.choice([0, 1]),
+                                   cseed=sub.randint(0, 9), pre=sub.randint(0, 4), post=sub.randint(0, 4), subseed=i,
+                                   peek=sub.choice([0, 1, 2]) if pcut else 0), sub)
 
 
 def kmean_random(quick, rng):
@@ -1096,7 +1525,24 @@ def extra_coverage(results):
         elif c["op"] == "mean" and c["a"]:
             a = c["a"]
             split["split" if (max(a) - min(a)) * len(a) > I64MAX else "no-split"] += 1
+    dk = {"slice": 0, "crop": 0, "flip": 0, "copy": 0, "kbp": 0, "start_repaired": 0, "empty": 0, "refused": 0, "rows_diverge(F25)": 0,
+          "partial_channel": 0, "where_left": 0, "no_overlap": 0}
+    for r in results:
+        c = r["case"]
+        if c["op"] in ("kymo", "scan", "dkymo"):
+            dk["partial_channel"] += bool(c.get("ctrim"))
+            dk["where_left"] += c.get("where") == "left"
+            dk["no_overlap"] += any(a == "RuntimeError" for a in r["impl"][-3:])
+        if c["op"] != "dkymo":
+            continue
+        for st in c["steps"]:
+            dk[{"s": "slice", "c": "crop", "f": "flip", "y": "copy", "k": "kbp"}[st[0]]] += 1
+        dk["start_repaired"] += bool(c.get("pcut")) and r["impl"][6][:1].isdigit()
+        dk["empty"] += r["impl"][6] == "Empty"
+        dk["refused"] += r["impl"][6].endswith("Error")
+        dk["rows_diverge(F25)"] += rows_diverge(c)
     return {
+        "derived_and_channel_variants": dk,
         "case_kinds": kinds,
         "error_kinds": errs,
         "delta_kinds": dts,
